@@ -170,10 +170,13 @@ static void alias_roundtrip(int n, int pattern, int k)
         sum += pa[i];
     }
     if (sum <= 0.0) { pa[0] = 1.0; sum = 1.0; }
-    for (int i = 0; i < n; i++) pa[i] /= sum;
+    /* a fifth of the tables sum to one only within the tolerance the library itself accepts (1e-3), from below or from above */
+    const double slack = (k % 5 == 0) ? ((k % 2) ? 0.9992 : 1.0008) : 1.0;
+    for (int i = 0; i < n; i++) pa[i] = pa[i] / sum * slack;
     struct cmb_random_alias *ap = cmb_random_alias_create((unsigned)n, pa);
     for (int i = 0; i < k; i++) { const unsigned r = cmb_random_alias_sample(ap); if (r >= (unsigned)n) viol("C10", "alias-index", "alias sample %u out of %d", r, n); }
-    for (int i = 0; i < k && n <= 15; i++) { const unsigned r = cmb_random_loaded_dice((unsigned)n, pa); (void)r; }
+    for (int i = 0; i < k && n <= 15; i++) { const unsigned r = cmb_random_loaded_dice((unsigned)n, pa); if (r >= (unsigned)n) viol("C10", "alias-index", "loaded dice returned %u for %d faces", r, n); }
+    if (n <= 3) { double ma[3] = { 1.0, 0.5, 2.0 }; for (int i = 0; i < k; i++) (void)cmb_random_hyperexponential((unsigned)n, ma, pa); }
     cmb_random_alias_destroy(ap);
     free(pa);
 }
@@ -231,7 +234,7 @@ static void empty_ops(int which, int64_t a)
         case 5: { struct cmb_wtdsummary w; cmb_wtdsummary_initialize(&w); (void)cmb_timeseries_summarize(t, &w); cmb_wtdsummary_print(&w, devnull, true);
                   cmb_wtdsummary_reset(&w); (void)cmb_wtdsummary_add(&w, 2.0, 1.0); cmb_wtdsummary_reset(&w); cmb_wtdsummary_terminate(&w); break; }
         case 6: cmb_timeseries_print(t, devnull); cmb_timeseries_histogram_print(t, devnull, 1 + (unsigned)(a % 20), 0.0, (a & 2) ? 0.0 : 5.0); break;
-        case 7: cmb_timeseries_sort_x(t); cmb_timeseries_sort_t(t); break;   /* weighted median / five-number summary of nothing: the library states that precondition as a release assert */
+        case 7: cmb_timeseries_sort_x(t); cmb_timeseries_sort_t(t); (void)cmb_timeseries_finalize(t, 2.0 + (double)(a % 3)); (void)cmb_timeseries_count(t); break;   /* the closing call on a history that never recorded */   /* weighted median / five-number summary of nothing: the library states that precondition as a release assert */
         case 8: if (ds) { (void)cmb_dataset_copy(ds, e); (void)cmb_dataset_count(ds); (void)cmb_dataset_add(ds, 4.0); (void)cmb_dataset_median(ds); }          /* an empty source into a target with data */
                 else { build_ds(9, 0); struct cmb_dataset *c = cmb_dataset_create(); cmb_dataset_initialize(c); (void)cmb_dataset_add(c, 1.0); (void)cmb_dataset_copy(c, ds); (void)cmb_dataset_median(c); cmb_dataset_destroy(c); }
                 break;
